@@ -1,12 +1,21 @@
 (* C05 — numbers set through the API are written without loss (ValueNode.format and what it calls).
-   Headline theorems only; the proofs are in Proofs/NumProofs.v; the model is Model/Num.v. *)
+   Headline theorems only; the proofs are in Proofs/NumProofs.v; the model is Model/Num.v.
+
+   Vocabulary:  render k tok pad np v  =  ValueNode(tok, type k, padding pad, never_pad np) [+ _convert_to_int
+   for KConv]; node.value = v; node.format().   written_number s = the first blank-delimited word of the
+   written text, read by the Fortran reader read_number as an exact decimal (sign, M, k) = +-M * 10^k.
+   dec_to_dbl = float() of that decimal (nearest double, None beyond the largest double).
+   isclose = math.isclose(., ., rel_tol=1e-9, abs_tol=0.0) as CPython evaluates it in IEEE doubles.
+   is_double x = x is a finite IEEE double (53 bit significand, exponent >= -1074, |x| < 2^1024).
+   followed_ok l = the padding after the node is empty or starts with a blank string, no empty strings. *)
 From Coq Require Import List String Ascii ZArith QArith Qabs Bool.
 From MPV Require Import Model.Wire Model.Num Proofs.NumProofs.
 Import ListNotations.
 Open Scope string_scope.
 Open Scope Z_scope.
 
-(* 1. A value that was not changed keeps its original spelling: every token the model's float()
+(* ------------------------------------------------------------------------------------------------
+   1. A value that was not changed keeps its original spelling: every token the model's float()
       accepts, every padding. *)
 Theorem C05_unchanged_verbatim : forall s pad np x,
   fortran_float s = Ok x ->
@@ -14,6 +23,13 @@ Theorem C05_unchanged_verbatim : forall s pad np x,
   = Ok (s ++ pad_text (match pad with Some l => l | None => [] end)).
 Proof. exact unchanged_float. Qed.
 Print Assumptions C05_unchanged_verbatim.
+
+Example C05_unchanged_verbatim_ex :
+  fortran_float "+01.50-03" = Ok (mkD false 6917529027641082 (-62)) /\
+  render KFloat (TText "+01.50-03") (Some [PStr "  "; PCom "$ c"]) false (VFlt (mkD false 6917529027641082 (-62)))
+  = Ok "+01.50-03  $ c".
+Proof. vm_compute. split; reflexivity. Qed.
+Print Assumptions C05_unchanged_verbatim_ex.
 
 (* ... and so does every value math.isclose(rel_tol=1e-9) cannot tell from the token's value *)
 Theorem C05_unchanged_tolerance : forall s pad np x y,
@@ -23,14 +39,21 @@ Theorem C05_unchanged_tolerance : forall s pad np x y,
 Proof. exact unchanged_float_tolerance. Qed.
 Print Assumptions C05_unchanged_tolerance.
 
+(* an integer node: the same integer *)
 Theorem C05_unchanged_verbatim_int : forall s pad np n,
-  py_int_of_string s = Ok n -> to_dbl (VInt n) <> None ->
+  py_int_of_string s = Ok n ->
   render KInt (TText s) pad np (VInt n)
   = Ok (s ++ pad_text (match pad with Some l => l | None => [] end)).
 Proof. exact unchanged_int. Qed.
 Print Assumptions C05_unchanged_verbatim_int.
 
-(* 2. No fusion: when the node is followed by a blank, the number that format() writes is followed by
+Example C05_unchanged_verbatim_int_ex :
+  py_int_of_string "-007" = Ok (-7) /\ render KInt (TText "-007") (Some [PStr " "]) false (VInt (-7)) = Ok "-007 ".
+Proof. vm_compute. split; reflexivity. Qed.
+Print Assumptions C05_unchanged_verbatim_int_ex.
+
+(* ------------------------------------------------------------------------------------------------
+   2. No fusion: when the node is followed by a blank, the number that format() writes is followed by
       white space, however long the new number is. *)
 Theorem C05_no_fusion : forall nd f temp p rest,
   pad_nodes nd = p :: rest -> pnode_is_space p = true ->
@@ -39,43 +62,230 @@ Theorem C05_no_fusion : forall nd f temp p rest,
 Proof. exact finish_no_fusion. Qed.
 Print Assumptions C05_no_fusion.
 
-(* 3. The full closeness statement is false of the current code: four witnesses *)
-Theorem C05_float_close_refuted_precision_cap :
-  exists tok pad x s r,
-    render KFloat (TText tok) pad false (VFlt x) = Ok s /\
-    written_number s = Some r /\ ~ Qclose (decval r) (dval x).
-Proof. exact refuted_precision_cap. Qed.
-Print Assumptions C05_float_close_refuted_precision_cap.
+Example C05_no_fusion_ex :      (* the column "1.5 " is full: a blank is added *)
+  render KFloat (TText "1.5") (Some [PStr " "]) false (VFlt (mkD false 694995494495815 (-49))) = Ok "1.23456 ".
+Proof. vm_compute. reflexivity. Qed.
+Print Assumptions C05_no_fusion_ex.
 
-Theorem C05_float_close_refuted_intlike_six_digits :
-  exists tok pad x s r,
-    render KFloat (TText tok) pad false (VFlt x) = Ok s /\
-    written_number s = Some r /\ ~ Qclose (decval r) (dval x).
-Proof. exact refuted_intlike_six_digits. Qed.
-Print Assumptions C05_float_close_refuted_intlike_six_digits.
+(* ------------------------------------------------------------------------------------------------
+   3. THE FLOAT THEOREM (full strength).  For every old token (text, jump, or none: an object made from
+      scratch), every padding, and every finite double x: what format() writes after node.value = x has
+      as its first word a number that is read back as a double y with math.isclose(y, x, rel_tol=1e-9). *)
+Theorem C05_float_close : forall tok pad np nd x s,
+  make_node KFloat tok pad np = Ok nd ->
+  is_double x ->
+  followed_ok (pad_nodes (set_value nd (VFlt x))) ->
+  format (set_value nd (VFlt x)) = Ok s ->
+  exists y, reads_as s y /\ isclose y x = true.
+Proof. exact float_node_close. Qed.
+Print Assumptions C05_float_close.
 
-Theorem C05_float_close_refuted_int_truncation :
-  exists tok pad x s r,
-    render KFloat (TText tok) pad false (VFlt x) = Ok s /\
-    written_number s = Some r /\ ~ Qclose (decval r) (dval x).
-Proof. exact refuted_int_truncation. Qed.
-Print Assumptions C05_float_close_refuted_int_truncation.
+Lemma is_double_1_23456 : is_double (mkD false 694995494495815 (-49)).
+Proof. unfold is_double. split; [split; vm_compute; congruence|]. split; vm_compute; congruence. Qed.
 
-Theorem C05_float_close_refuted_scratch :
-  exists x s r,
-    render KFloat TNone None false (VFlt x) = Ok s /\
-    written_number s = Some r /\ ~ Qclose (decval r) (dval x).
-Proof. exact refuted_scratch_five_digits. Qed.
-Print Assumptions C05_float_close_refuted_scratch.
+(* hypotheses satisfiable: precision raised ('1.5' <- 1.23456), scratch, jump, blank sign + scientific,
+   and a case that ends in the ".17g" fall-back ('1.5' <- 1.234e-12) *)
+Example C05_float_close_ex_precision :
+  exists nd, make_node KFloat (TText "1.5") (Some [PStr " "]) false = Ok nd /\
+    is_double (mkD false 694995494495815 (-49)) /\
+    followed_ok (pad_nodes (set_value nd (VFlt (mkD false 694995494495815 (-49))))) /\
+    format (set_value nd (VFlt (mkD false 694995494495815 (-49)))) = Ok "1.23456 ".
+Proof.
+  eexists. split; [vm_compute; reflexivity|]. split; [exact is_double_1_23456|]. split.
+  - right. exists (PStr " "), []. split; [reflexivity|]. split; [reflexivity|].
+    constructor; [discriminate | constructor].
+  - vm_compute. reflexivity.
+Qed.
+Print Assumptions C05_float_close_ex_precision.
 
-Theorem C05_format_total_refuted :
-  exists tok pad x, render KFloat (TText tok) pad false (VFlt x) = Err EAttribute.
-Proof. exact refuted_total. Qed.
-Print Assumptions C05_format_total_refuted.
+Example C05_float_close_ex_scratch :       (* ValueNode(None, float).value = 1.23456789 *)
+  exists nd, make_node KFloat TNone None false = Ok nd /\
+    format (set_value nd (VFlt (mkD false 5559999489367579 (-52)))) = Ok "1.23456789 ".
+Proof. eexists. split; vm_compute; reflexivity. Qed.
+Print Assumptions C05_float_close_ex_scratch.
 
-Theorem C05_int_exact_refuted :
-  exists tok pad n s r,
-    render KInt (TText tok) pad false (VInt n) = Ok s /\
-    written_number s = Some r /\ ~ (decval r == inject_Z n)%Q.
-Proof. exact refuted_int_exact. Qed.
-Print Assumptions C05_int_exact_refuted.
+Example C05_float_close_ex_blank_sign :    (* '-1.5e0' <- 2.5: sign option ' ' *)
+  render KFloat (TText "-1.5e0") (Some [PStr " "]) false (VFlt (mkD false 5 (-1))) = Ok " 2.5e+0 ".
+Proof. vm_compute. reflexivity. Qed.
+Print Assumptions C05_float_close_ex_blank_sign.
+
+Example C05_float_close_ex_fallback :      (* '1.5' <- 1.234e-12: no "%.pf" with p <= 17 reads back *)
+  render KFloat (TText "1.5") (Some [PStr " "]) false (VFlt (mkD false 6112403146294505 (-92)))
+  = Ok "1.2339999999999999e-12 ".
+Proof. vm_compute. reflexivity. Qed.
+Print Assumptions C05_float_close_ex_fallback.
+
+(* the two ways the float branch ends *)
+Theorem C05_float_text_cases : forall reversed f x s,
+  float_text reversed f x = Ok s -> reads_back s x = Ok true \/ fallback_text f x = Ok s.
+Proof. exact float_text_cases. Qed.
+Print Assumptions C05_float_text_cases.
+
+(* the ".17g" fall-back is read back as exactly the double that was set (17 digits round-trip) *)
+Theorem C05_fallback_exact : forall f x temp,
+  is_double x -> fallback_text f x = Ok temp ->
+  exists r y, read_number (drop_blank temp) = Some r /\ dec_to_dbl r = Some y /\ isclose y x = true.
+Proof. exact fallback_exact. Qed.
+Print Assumptions C05_fallback_exact.
+
+(* float(): a decimal within half a unit of the 17th digit of a double is read as that double *)
+Theorem C05_float_of_17_digits : forall neg M k x,
+  is_double x -> 0 < dman x ->
+  (Qabs (inject_Z M * p10 k - dabs x) <= delta17 * dabs x)%Q ->
+  exists y, mk_round neg (dec_num M k) (dec_den k) = Some y /\ dneg y = neg /\ 0 <= dman y /\
+            (dabs y == dabs x)%Q.
+Proof. exact mk_round_near_double. Qed.
+Print Assumptions C05_float_of_17_digits.
+
+(* no digit is added when the old token's precision is enough; otherwise one digit at a time, stopping
+   at the first precision whose text reads back *)
+Theorem C05_no_extra_digits : forall reversed f x t0,
+  format_float reversed f x (precision f) = Ok t0 -> reads_back t0 x = Ok true ->
+  float_text reversed f x = Ok t0.
+Proof. exact no_extra_digits. Qed.
+Print Assumptions C05_no_extra_digits.
+
+Example C05_no_extra_digits_ex :           (* '1.50' <- 2.25 keeps two decimals *)
+  render KFloat (TText "1.50") (Some [PStr " "]) false (VFlt (mkD false 9 (-2))) = Ok "2.25 ".
+Proof. vm_compute. reflexivity. Qed.
+Print Assumptions C05_no_extra_digits_ex.
+
+Theorem C05_loop_minimal : forall reversed f x fuel p t0 temp,
+  format_float reversed f x p = Ok t0 ->
+  prec_loop reversed f x fuel p t0 = Ok temp ->
+  exists j, (j <= fuel)%nat /\ format_float reversed f x (p + Z.of_nat j) = Ok temp /\
+    (forall i ti, (i < j)%nat -> format_float reversed f x (p + Z.of_nat i) = Ok ti -> reads_back ti x = Ok false) /\
+    ((j < fuel)%nat -> reads_back temp x = Ok true).
+Proof. exact prec_loop_spec. Qed.
+Print Assumptions C05_loop_minimal.
+
+(* ------------------------------------------------------------------------------------------------
+   4. The exact rounding error of each notation ("%.pe", "%.pf", "%.Pg" with the sign / zero fill of
+      format()): half a unit of the last digit written. *)
+Theorem C05_e_error : forall f x p temp,
+  is_scientific f = true -> 0 <= p ->
+  exponent_length f = exponent_zero_pad f ->
+  (divider f = "" \/ divider f = "e" \/ divider f = "E") ->
+  0 <= dman x ->
+  format_float true f x p = Ok temp ->
+  exists r, read_number (drop_blank temp) = Some r /\
+    (Qabs (decval r - dval x) <= (1 # 2) * p10 (- p) * Qabs (dval x))%Q.
+Proof. exact sci_branch_error. Qed.
+Print Assumptions C05_e_error.
+
+Example C05_e_error_ex :                   (* Fortran style token: no letter before the exponent *)
+  render KFloat (TText "1.50-03") (Some [PStr " "]) false (VFlt (mkD false 5 (-1))) = Ok "2.50+00 ".
+Proof. vm_compute. reflexivity. Qed.
+Print Assumptions C05_e_error_ex.
+
+Theorem C05_f_error : forall f x p temp,
+  is_scientific f = false -> as_int f = false -> 0 <= p ->
+  0 <= dman x ->
+  format_float true f x p = Ok temp ->
+  exists r, read_number (drop_blank temp) = Some r /\
+    (Qabs (decval r - dval x) <= (1 # 2) * p10 (- p))%Q.
+Proof. exact fixed_branch_error. Qed.
+Print Assumptions C05_f_error.
+
+Theorem C05_g_error : forall P0 x b sopt z,
+  0 <= P0 -> 0 < dman x -> g_body P0 x = Ok b ->
+  exists M k, read_number (drop_blank (sign_text sopt (dneg x) ++ zeros z ++ b)) = Some (dneg x, M, k) /\
+    (Qabs (inject_Z M * p10 k - dabs x)
+       <= (1 # 2) * p10 (- ((if P0 =? 0 then 1 else P0) - 1)) * dabs x)%Q.
+Proof. exact g_branch_error. Qed.
+Print Assumptions C05_g_error.
+
+Example C05_g_error_ex : g_body 6 (mkD false 5768499521447309 (-50)) = Ok "5.12346".
+Proof. vm_compute. reflexivity. Qed.
+Print Assumptions C05_g_error_ex.
+
+(* ------------------------------------------------------------------------------------------------
+   5. The int(round(value)) branch: a float within the tolerance of an integer, on an integer-looking
+      token, is written as the nearest integer, digit for digit. *)
+Theorem C05_round_branch_exact : forall nd reversed f x temp,
+  n_isfloat nd = true -> can_float_to_int nd f (VFlt x) = Ok true ->
+  render_temp nd reversed f (VFlt x) = Ok temp ->
+  read_number (drop_blank temp)
+  = Some (py_round (VFlt x) <? 0, Z.abs (py_round (VFlt x)), 0).
+Proof. exact round_branch_exact. Qed.
+Print Assumptions C05_round_branch_exact.
+
+Theorem C05_round_is_nearest : forall x, 0 <= dman x ->
+  (Qabs (inject_Z (py_round (VFlt x)) - dval x) <= 1 # 2)%Q.
+Proof. exact py_round_nearest. Qed.
+Print Assumptions C05_round_is_nearest.
+
+Example C05_round_branch_ex :              (* '5' <- 57.99999999999999 is written 58, not 57 *)
+  render KFloat (TText "5") (Some [PStr " "]) false (VFlt (mkD false 8162774324609023 (-47))) = Ok "58 ".
+Proof. vm_compute. reflexivity. Qed.
+Print Assumptions C05_round_branch_ex.
+
+(* ------------------------------------------------------------------------------------------------
+   6. THE INTEGER THEOREM (full strength): an integer node writes the integer that was set, digit for
+      digit (third component 0: no point, no exponent), whatever token it was made from. *)
+Theorem C05_int_exact : forall tok pad np nd n s,
+  make_node KInt tok pad np = Ok nd ->
+  followed_ok (pad_nodes (set_value nd (VInt n))) ->
+  format (set_value nd (VInt n)) = Ok s ->
+  exists neg M, written_number s = Some (neg, M, 0) /\ (if neg then - M else M) = n.
+Proof. exact int_node_exact_full. Qed.
+Print Assumptions C05_int_exact.
+
+Example C05_int_exact_ex :                 (* 1000000000 <- 1000000001: ints are compared exactly *)
+  exists nd, make_node KInt (TText "1000000000") (Some [PStr " "]) false = Ok nd /\
+    followed_ok (pad_nodes (set_value nd (VInt 1000000001))) /\
+    format (set_value nd (VInt 1000000001)) = Ok "1000000001 ".
+Proof.
+  eexists. split; [vm_compute; reflexivity|]. split.
+  - right. exists (PStr " "), []. split; [reflexivity|]. split; [reflexivity|].
+    constructor; [discriminate | constructor].
+  - vm_compute. reflexivity.
+Qed.
+Print Assumptions C05_int_exact_ex.
+
+(* Converted nodes (a NUMBER token read as a float, then _convert_to_int): _og_value stays the float.
+   The full statement is FALSE of the current code: *)
+Theorem C05_conv_int_exact_refuted :
+  exists t pad n s r,
+    render KConv (TText t) pad false (VInt n) = Ok s /\
+    written_number s = Some r /\ r <> (n <? 0, Z.abs n, 0) /\ s = t ++ " ".
+Proof. exact conv_node_exact_refuted. Qed.
+Print Assumptions C05_conv_int_exact_refuted.
+
+(* ... what does hold: the integer is written digit for digit unless the new integer equals, as Python
+   compares an int with a float, the float the token was first read as (then the old token is kept) *)
+Theorem C05_conv_int_cases : forall tok pad np nd n s,
+  make_node KConv tok pad np = Ok nd ->
+  followed_ok (pad_nodes (set_value nd (VInt n))) ->
+  format (set_value nd (VInt n)) = Ok s ->
+  written_number s = Some (n <? 0, Z.abs n, 0) \/
+  exists t xo, tok = TText t /\ fortran_float t = Ok xo /\ py_eq (VInt n) (VFlt xo) = true /\
+               s = t ++ pad_text (pad_nodes (set_value nd (VInt n))).
+Proof. exact conv_node_cases. Qed.
+Print Assumptions C05_conv_int_cases.
+
+(* ... and under the side condition that excludes the defect — the token's float is exactly the token's
+   integer, true of every integer below 2^53 — the old token is only kept for its own integer *)
+Theorem C05_conv_int_exact_partial : forall t pad np nd n s xo i,
+  make_node KConv (TText t) pad np = Ok nd ->
+  fortran_float t = Ok xo -> conv_int t = Ok i -> py_eq (VInt i) (VFlt xo) = true ->
+  followed_ok (pad_nodes (set_value nd (VInt n))) ->
+  format (set_value nd (VInt n)) = Ok s ->
+  written_number s = Some (n <? 0, Z.abs n, 0) \/
+  (n = i /\ s = t ++ pad_text (pad_nodes (set_value nd (VInt n)))).
+Proof. exact conv_node_exact_partial. Qed.
+Print Assumptions C05_conv_int_exact_partial.
+
+Example C05_conv_int_exact_partial_ex :    (* '0012.0' converted, <- 7 *)
+  exists nd, make_node KConv (TText "0012.0") (Some [PStr " "]) false = Ok nd /\
+    fortran_float "0012.0" = Ok (mkD false 12 0) /\ conv_int "0012.0" = Ok 12 /\
+    py_eq (VInt 12) (VFlt (mkD false 12 0)) = true /\
+    format (set_value nd (VInt 7)) = Ok "7      ".
+Proof. eexists. repeat split; vm_compute; reflexivity. Qed.
+Print Assumptions C05_conv_int_exact_partial_ex.
+
+(* ------------------------------------------------------------------------------------------------
+   7. math.isclose as modelled is symmetric (used for the unchanged short cut: isclose(new, old)). *)
+Theorem C05_isclose_symmetric : forall a b, isclose a b = isclose b a.
+Proof. exact isclose_sym. Qed.
+Print Assumptions C05_isclose_symmetric.
